@@ -153,12 +153,14 @@ def run_case(case):
         if nested:
             # a kept field holds a nested value and a later row function edits it in place: every emitted row is its own
             order = order + ['tags']
-            fields = fields + [('tags', 'array')]
+            # ... whatever type the field is declared with (a list is a legal 'any' / 'geojson'-less container cell too)
+            ntype = rng.choice(['array', 'array', 'any', 'any'])
+            fields = fields + [('tags', ntype)]
             sfields = gen.schema_fields(fields)
             for rn in res_names:
                 for r_ in tables[rn]:
                     r_['tags'] = ['t', {'k': [0]}]
-            cov['config']['unpivot/nested_kept_value'] = 1
+            cov['config']['unpivot/nested_kept_value/' + ntype] = 1
 
         def ref(F, R):
             f2, r2, n = refmodel.unpivot(F, R, specs, extra_keys, extra_value, regex)
